@@ -239,7 +239,7 @@ def c_sequence(inp):
 
 
 @S.item("find_lc_operations.sequence", site=f"{_LCE}:find_lc_operations",
-        bound="fixed list, seed-independent (touches known findings KF-C09-1, KF-C09-2): ALL ordered pairs n<=4 deterministic; random mode: all pairs n<=3 + all same-orbit pairs n=4", exhaustive=True, clause=CL_SEQ + " (one-call form)")
+        bound="fixed list, seed-independent (touches known finding KF-C09-1): ALL ordered pairs n<=4 deterministic; random mode: all pairs n<=3 + all same-orbit pairs n=4", exhaustive=True, clause=CL_SEQ + " (one-call form)")
 def c_find_ops(inp):
     mode, a, b = inp
     A, B = _adj(a), _adj(b)
@@ -280,7 +280,7 @@ def c_graph_equiv(inp):
 
 
 @S.item("Graph.lc_equivalent.node_order", site=f"{_GST}:Graph.lc_equivalent",
-        bound="fixed list, seed-independent (touches known finding KF-C09-4): all 38 connected graphs on 4 vertices x second graph in {same graph, LC at vertex 0} x 3 node insertion orders of the second graph",
+        bound="fixed list: all 38 connected graphs on 4 vertices x second graph in {same graph, LC at vertex 0} x 3 node insertion orders of the second graph",
         exhaustive=True, clause=CL_ANSWER + " (graphs on the same vertices; a networkx graph does not depend on the order its nodes were added)")
 def c_graph_node_order(inp):
     a, b, order = inp
@@ -324,9 +324,9 @@ def _tableau(form, dest, stab):
 
 
 @S.item("lc_check.pairs", site=f"{_SLC}:lc_check",
-        bound="fixed list, seed-independent (touches known findings KF-C09-1, KF-C09-3): ALL ordered pairs n<=4 given as (networkx graphs, validate "
-              "True/False), stabilizer tableaux, Clifford tableaux; adjacency matrices: all pairs n<=3 + every 13th pair of n=4; thorough adds all "
-              "same-orbit pairs with graph 1 connected on 5 vertices (graph / stabilizer / Clifford forms)",
+        bound="fixed list, seed-independent (touches known finding KF-C09-1): ALL ordered pairs n<=4 given as (networkx graphs, validate "
+              "True/False), adjacency matrices, stabilizer tableaux, Clifford tableaux; thorough adds all same-orbit pairs with graph 1 "
+              "connected on 5 vertices (all four forms)",
         exhaustive=True, clause=CL_ANSWER + "; " + CL_GATES)
 def c_lc_check(inp):
     form, validate, a, b = inp
@@ -346,7 +346,7 @@ def c_lc_check(inp):
 
 
 @S.item("lc_check.pairs_sampled", site=f"{_SLC}:lc_check",
-        bound="seeded; graph 1 CONNECTED on 5 vertices, forms graph / stabilizer / Clifford tableau only (cannot meet KF-C09-1 / KF-C09-3): "
+        bound="seeded; graph 1 CONNECTED on 5 vertices (cannot meet KF-C09-1), forms graph / adjacency matrix / stabilizer / Clifford tableau: "
               "quick 600 pairs (half same-orbit), thorough 12000 arbitrary second graphs", clause=CL_ANSWER + "; " + CL_GATES)
 def c_lc_check_sampled(inp):
     return c_lc_check(inp)
@@ -614,20 +614,14 @@ def run(tier, seed):
 
     # ---- lc_check / converter_gate_list / state_converter_circuit -----------------------------
     lc_inputs = []
-    for form, validate in (("graph", True), ("graph", False), ("stabilizer", True), ("clifford", True)):
+    for form, validate in (("graph", True), ("graph", False), ("adjacency", True), ("stabilizer", True), ("clifford", True)):
         lc_inputs += [[form, validate, a, b] for a, b in pairs4]
-    k = 0
-    for a, b in pairs4:
-        if len(a) <= 3 or k % 13 == 0:
-            lc_inputs.append(["adjacency", True, a, b])
-        if len(a) == 4:
-            k += 1
     if thorough:
-        for form, validate in (("graph", True), ("stabilizer", True), ("clifford", True)):
+        for form, validate in (("graph", True), ("adjacency", True), ("stabilizer", True), ("clifford", True)):
             lc_inputs += [[form, validate, a, b] for a, b in orb5c]
     S.map("lc_check.pairs", lc_inputs, nontrivial=nt_pair)
     p5s = _sample_pairs(5, 12000 if thorough else 600, rng, frac_orbit=0.0 if thorough else 0.5)
-    S.map("lc_check.pairs_sampled", [[form, True, a, b] for form in ("graph", "stabilizer", "clifford") for a, b in p5s], nontrivial=nt_pair)
+    S.map("lc_check.pairs_sampled", [[form, True, a, b] for form in ("graph", "adjacency", "stabilizer", "clifford") for a, b in p5s], nontrivial=nt_pair)
     S.map("lc_check.dressed_tableaux", _dressed_cases(5 if thorough else 4, 12000 if thorough else 1200, rng),
           nontrivial=lambda i: L.same_orbit(_adj(i[2]), _adj(i[4])) and (len(i[3]) + len(i[5]) > 0))
     S.map("converter_gate_list.gates", [[a, b] for a, b in pairs4], nontrivial=nt_pair)
@@ -642,5 +636,5 @@ def run(tier, seed):
     S.note("oracle: refsem.core.lc_orbit BFS (exact for every n used); gates judged on refsem state vectors up to global phase")
     S.note("random mode is called with graphiq's default seed=0, so it is a deterministic function of the pair")
     S.note("fixed (run-seed independent) input lists: every item except is_lc_equivalent.answer_sampled, lc_check.pairs_sampled, "
-           "lc_check.dressed_tableaux and the n>=5 part of the three 'yes' items; those take graph 1 connected and cannot meet KF-C09-1..4")
+           "lc_check.dressed_tableaux and the n>=5 part of the three 'yes' items; those take graph 1 connected and cannot meet KF-C09-1")
     return S
